@@ -86,8 +86,8 @@ func runKvSequence(ops []kvOp, seq int, backends []string, out *ndw, kinds map[s
 		curT, curS := 0, ""
 		ctx := context.Background() // carries the caller's language ("Language" context value), as the engine does
 		for i, o := range ops {
-			if o.Op == "dump" && be != "fs" && be != "fsbin" {
-				continue // listing is judged where C10 says it is implemented: the filesystem backend
+			if o.Op == "dump" && be != "fs" && be != "fsbin" && be != "pg" {
+				continue // listings: the filesystem backend (C10 and C11) and the Postgres driver's key-range scan (C11 only)
 			}
 			ev := kvEvent{Ev: "kv", Backend: be, Seq: seq, First: i == 0, O: kvOp{o.Op, o.T, enc(o.S), enc(o.K), enc(o.V), o.B}, List: []kvPair{}}
 			func() {
